@@ -11,7 +11,7 @@
    Only property theorems live here. *)
 From RichModel Require Import Prelude Conc SpecConc.
 From RichGen Require Import ConsoleLock.
-From RichProofs Require Import ConcP ConcP2 ConcP3 ConcP4 ConcP5 ConcP6 ConcP7 ConcP8.
+From RichProofs Require Import ConcP ConcP2 ConcP3 ConcP4 ConcP5 ConcP6 ConcP7 ConcP8 ConcP9.
 Open Scope list_scope.
 
 (* (0) the tie: lock discipline computed on the table extracted from /repo's ASTs *)
@@ -84,10 +84,42 @@ Print Assumptions C11_record_order_eq_file_order.
    unreachable (C11_pop_render_hook_safe) -- Live.stop pops only after reading _started = True
    under the live lock, so two threads stopping the same Live cannot both pop. *)
 Theorem C11_deadlock_free : forall rep live sh0 r0 progs sched t0,
+  join_targets_ok progs ->       (* whoever is joined runs a refresh loop and joins nobody *)
   let st := run rep sched (init_state live sh0 r0 progs) in
   prog (th st t0) <> [] -> exists t, step rep st t <> None.
 Proof. exact deadlock_free_full. Qed.
 Print Assumptions C11_deadlock_free.
+(* Thread.join() is part of the model: a thread in join() is not runnable until the joined thread
+   has finished, so the waits-for graph has join edges.  Live.stop() joins its refresh thread only
+   after releasing the live lock (bridge_stop_auto; rule is_join of well_locked: join with no lock
+   held).  With the join inside the lock the model deadlocks: *)
+Theorem C11_join_under_lock_refuted :
+  exists sched, let st := run false sched join_under_lock_state in
+    runnable false st 2 = [] /\ finished st 2 = false.
+Proof. exists [1; 0; 0; 0; 1; 0; 1]%nat. destruct join_under_lock_deadlocks as [A [B _]]. split; assumption. Qed.
+Print Assumptions C11_join_under_lock_refuted.
+
+Example C11_deadlock_free_nonvacuous :
+  join_targets_ok (progs_of [[Print 1; StopAuto 1%nat]; [RefreshLoop]; [Print 2]]).
+Proof.
+  intros t t' Hin. destruct t as [|[|[|t]]]; cbn in Hin; try (destruct t; contradiction); try contradiction.
+  destruct Hin as [<-|[]]. split; [reflexivity | cbn; auto].
+Qed.
+
+(* start()/stop(): exactly one hook while started, none otherwise, whenever the live lock is free:
+   concurrent start() calls push exactly ONE hook (check-then-act in one critical section; /repo side:
+   ConcP.start_stop_started_guarded, progress_start_check_then_act for Live AND Progress) *)
+Theorem C11_hooks_match_started : forall rep live sh0 r0 progs sched,
+  let st := run rep sched (init_state live sh0 r0 progs) in
+  lkL (sh st) = None -> hooks (sh st) = (if started (sh st) then 1 else 0)%nat.
+Proof. exact hooks_match_started. Qed.
+Print Assumptions C11_hooks_match_started.
+
+Example C11_concurrent_starts_nonvacuous :
+  let st := run false (flat_map (fun _ => [0; 1; 2; 1; 0; 2]%nat) (seq 0 60))
+                (init_state false None (0, 1%nat) (progs_of [[Start]; [Start]; [Start]])) in
+  finished st 3 = true /\ hooks (sh st) = 1%nat /\ started (sh st) = true.
+Proof. vm_compute. repeat (split; [reflexivity|]). reflexivity. Qed.
 
 Theorem C11_pop_render_hook_safe : forall rep live sh0 r0 progs sched t r,
   let st := run rep sched (init_state live sh0 r0 progs) in
